@@ -331,6 +331,7 @@ extern "C" void __asan_on_error()
    __sanitizer_symbolize_pc(__asan_get_report_pc(), "%f", fn, sizeof fn);
    // the hook runs before the runtime prints (describes) the error; the runtime can die in that step (internal CHECK failures after heap corruption):
    // leave the current report where the parent finds it
+   if(getenv("VX_SAN_TRACE")) fprintf(stderr, "VX-SAN %s:%s:%s\n", __asan_get_report_description(), __asan_get_report_access_type() ? "write" : "read", fn);
    if(g_myshm) snprintf(g_myshm->lastSan, sizeof g_myshm->lastSan, "%s:%s:%s", __asan_get_report_description(), __asan_get_report_access_type() ? "write" : "read", fn);
    if(g_asan_report[0]) return;   // keep the first report of a case
    snprintf(g_asan_report, sizeof g_asan_report, "%s:%s:%s", __asan_get_report_description(),
